@@ -122,6 +122,9 @@ CUTS = {
 VERDICT_HANDLERS = {
     ("src/sqlfluff/core/parser/segments/base.py::BaseSegment.validate_segment_with_reparse", "SQLParseError"):
         "re-parse of a *candidate fix*: a parse error means 'not valid' (returns False), the fix is dropped; the user's file has already been parsed and reported",
+    ("src/sqlfluff/core/linter/fix.py::apply_fixes", "SQLParseError"):
+        "the node-budget seeding of validate_segment_with_reparse raises by contract (pinned by test_validate_segment_with_reparse_respects_max_parse_nodes); "
+        "apply_fixes, which consumes the verdict, turns it into 'not valid' (validated = False; C13 R13b checks that this is what the handler yields)",
 }
 
 
@@ -1063,10 +1066,10 @@ DELIMITED = "src/sqlfluff/core/parser/grammar/delimited.py"
 
 VARIANTS: List[Variant] = [
     # ---- R04a: exception flow ---------------------------------------------------------------
-    Variant("seed-before-try", SEGBASE,
-            "        try:\n            ctx.seed_parse_nodes(len(trimmed_content))\n",
-            "        ctx.seed_parse_nodes(len(trimmed_content))\n        try:\n",
-            "R04a", "increment_parse_nodes", "the original defect F-A (fixed by 6dfcb95)"),
+    Variant("fix-validation-verdict-handler-narrowed", "src/sqlfluff/core/linter/fix.py",
+            "            except SQLParseError as err:\n                # The edited segment no longer fits",
+            "            except KeyError as err:\n                # The edited segment no longer fits",
+            "R04a", "increment_parse_nodes", "the original defect F-A (fixed by 6dfcb95 + 97cdee7): the budget seeding of fix validation raises out of lint_string(fix=True)"),
     Variant("parse-handler-narrowed", LINTER,
             "        except SQLParseError as err:\n            if err.segment is None:",
             "        except SQLLexError as err:\n            if err.segment is None:",
